@@ -6,6 +6,11 @@ op    ["write", col, row, text, clear, align] | ["line", row, text, align, clear
       | ["message", top|None, bottom|None, top_align, bottom_align, clear] | ["clear"]
       | ["progress", row, value, max_value, width|None, style, label|None]
       | ["display", on] | ["backlight", on] | ["brightness", level] | ["glyph", slot, bitmap]
+grid  request {"grid": [[cols, width|None, max_value, [value...], label|None, style], ...]}: one fresh LCD
+      (one row) per entry, progress(0, value, max_value, width=, style=, label=) for every value in order;
+      -> per entry the list of filled lengths read back from LCD.buffer[0] (number of style glyphs at the
+      start of the bar, the rest of the bar blank; the raw row string when the bar is not of that shape or
+      is cut by the display edge; the exception class name when the call raises)
 result {"ctor": "ok"|exc, "steps": [{"st": "ok"|exception class name, "buf": [row strings],
         "display": b, "backlight": b, "bright": n, "glyphs": {slot: [8 ints]}}...]}"""
 import json
@@ -67,8 +72,38 @@ def run_case(case):
     return {"ctor": "ok", "steps": steps}
 
 
+GLYPH = {"block": "\u2588", "hash": "#", "pipe": "|", "dot": "."}
+
+
+def run_grid(entry):
+    cols, width, maxv, values, label, style = entry
+    lcd = LCD(rs=12, en=11, d4=5, d5=4, d6=3, d7=2, cols=cols, rows=1)
+    tw = cols if width is None else max(1, min(cols, width))
+    start = (len(label) + 1) if label else 0
+    glyph = GLYPH[style.lower()]
+    out = []
+    for v in values:
+        try:
+            lcd.progress(0, v, maxv, width=width, style=style, label=label)
+        except Exception as e:  # noqa
+            out.append(type(e).__name__)
+            continue
+        row = lcd.buffer[0]
+        bar = row[start:start + tw]
+        n = len(bar) - len(bar.lstrip(glyph))
+        if len(row) != cols or len(bar) != tw or bar[n:].strip(" ") or row[start + tw:].strip(" ") \
+                or (label and row[:start] != label + " "):
+            out.append(row)
+        else:
+            out.append(n)
+    return out
+
+
 def main():
     req = json.load(sys.stdin)
+    if "grid" in req:
+        json.dump([run_grid(e) for e in req["grid"]], sys.stdout)
+        return
     json.dump([run_case(c) for c in req["cases"]], sys.stdout)
 
 
